@@ -67,7 +67,10 @@ def find_top_level_manifest(path='.', allow_xdev=True, allow_compressed=False):
                 pass
             else:
                 # check if the initial path is ignored
-                relpath = os.path.relpath(path, cur_path)
+                # NB: cur_path is path plus a number of '..' links,
+                # so compare real paths (path can lead through symlinks)
+                relpath = os.path.relpath(os.path.realpath(path),
+                                          os.path.realpath(cur_path))
                 if relpath == '.':
                     relpath = ''
                 fe = m.find_path_entry(relpath)
